@@ -226,10 +226,21 @@ func (r *Run) Crumb(format string, a ...interface{}) {
 func (r *Run) Violate(tag string, attrs map[string]string, c interface{}, format string, a ...interface{}) {
 	r.mu.Lock()
 	defer r.mu.Unlock()
-	r.vioCount[tag]++
+	// the cap is per (tag, attrs) class so that a frequent known class cannot
+	// crowd out a different one
+	key := tag
+	if len(attrs) > 0 {
+		ks := make([]string, 0, len(attrs))
+		for k, v := range attrs {
+			ks = append(ks, k+"="+v)
+		}
+		sort.Strings(ks)
+		key += "|" + strings.Join(ks, ",")
+	}
+	r.vioCount[key]++
 	cur, _ := r.res.Observed["violations_total"].(int64)
 	r.res.Observed["violations_total"] = cur + 1
-	if r.vioCount[tag] > 25 {
+	if r.vioCount[key] > 25 || len(r.res.Violations) > 3000 {
 		return
 	}
 	r.res.Violations = append(r.res.Violations, Violation{
